@@ -48,7 +48,9 @@ def main(ctx):
                 "with multi-byte / empty / anchor patterns and empty / multi-byte contents, sequences of up to 3 stages incl. "
                 "nested ones), plus seeded random texts (<= ~12 chars from a 58-char alphabet: controls, combining marks, "
                 "precomposed/decomposed, Hangul, CJK, 4-byte, compat ligatures, UTF-8 length edges) x random configurations "
-                "(nested sequences of up to 3 stages, 26 regex patterns x 10 contents). A case is trivial when the text is empty "
+                "(nested sequences of up to 3 stages, 26 regex patterns x 10 contents); mark clusters: {start of text, plain base, "
+                "precomposed base} + every ordered pair (thorough: triple) of combining marks with different combining classes "
+                "(7,10,14,202,216,220,230,240), Hangul jamo runs, under all four Unicode forms and sequences with Bert/Replace. A case is trivial when the text is empty "
                 "and no Replace is involved; distinct = distinct (configuration, text)")
     ctx.trusted += [
         "oracles (modelled as arbitrary functions, tables dumped per case by the harness from the same crates): char::to_lowercase, "
@@ -63,7 +65,7 @@ def main(ctx):
     ctx.audit(GROUP)
     failed = ctx.prove(GROUP, "Props_C30", THEOREMS)
     bindir = ctx.harness(GROUP, profile="release", bins=["c30"])
-    cases = ctx.gen_exec(bindir, "c30", ctx.n(1500, 30000), inputs=ctx.replay_inputs())
+    cases = ctx.gen_exec(bindir, "c30", ctx.n(1000, 24000), inputs=ctx.replay_inputs())
     for i, c in enumerate(cases):
         c["idx"] = i
     # Which property failures are exactly the known class F16?  Decided inside Coq (known_f16):
